@@ -228,6 +228,14 @@ def judge(ctx, case):
         if case.get('big'):
             recs_a = [rng.randbytes(246 + (k % 7)) for k in range(5000)]
             ctx.count('conversions of inputs over 1 MiB')
+        elif fin == 'vbs' and case['salt'] % 3 == 0:
+            # blank-padded rows, the way real parameter files look: the unblocked file then carries x'40' x'40' exactly where
+            # a 1014-blocked file has its fill bytes (offsets 1012-1013, 2026-2027) - it is still an unblocked file
+            recs_a = [bytearray(rng.choice(b'\x40\x40\x40\x40\x40\xc1\xf0\x4b') for _ in range(246)) for _ in range(rng.choice([11, 14, 40]))]
+            for off in (1012, 1013, 2026, 2027):
+                recs_a[off // 250][off % 250 - 4] = 0x40
+            recs_a = [bytes(r) for r in recs_a]
+            ctx.count('unblocked parameter files with fill-valued bytes where a blocked file has its fill')
         else:
             recs_a = [bytes(rng.randrange(256) for _ in range(rng.choice([1, 5, 80, 246, 1012, rng.randint(1, 3000)])))
                       for _ in range(rng.choice([1, 3, 10, 40]))]
@@ -328,6 +336,8 @@ def require(m):
                 reasons.append('%s never run through %s' % (tool, entry))
     if not m['counters'].get('conversions of inputs over 1 MiB'):
         reasons.append('no input over 1 MiB converted')
+    if m['counters'].get('unblocked parameter files with fill-valued bytes where a blocked file has its fill', 0) < 3 and not m['violations']:
+        reasons.append('fewer than 3 blank-padded unblocked parameter files')
     if not m['counters'].get('conversions run with the documented default arguments'):
         reasons.append('default arguments never used')
     if len(set(m['classes'].get('codec pairs', ()))) < 6:
